@@ -67,14 +67,17 @@ Definition spec_folder (cfg : config) (m : message) : str :=
 Definition is_role (d : db) (addr : str) : bool :=
   existsb (fun r => str_eqb (r_email r) addr && r_enabled r) (roles d).
 Definition user_exists (d : db) (n dom : str) : bool := existsb (user_is n dom) (users d).
+Definition user_enabled (d : db) (n dom : str) : bool :=
+  existsb (fun u => user_is n dom u && u_enabled u) (users d).
 Definition user_disabled (d : db) (n dom : str) : bool :=
   existsb (fun u => user_is n dom u && negb (u_enabled u)) (users d).
 
-(** "validate recipients against database": a role address or a user row local@domain *)
+(** "validate recipients against database": an enabled role address or an
+    enabled user local@domain (exact match of every byte) *)
 Definition known (d : db) (addr : str) : bool :=
   match extract_parts addr with
   | None => false
-  | Some (n, dom) => is_role d addr || user_exists d n dom
+  | Some (n, dom) => is_role d addr || user_enabled d n dom
   end.
 
 Definition domain_listed (cfg : config) (addr : str) : bool :=
@@ -198,47 +201,11 @@ Definition wf_db (d : db) : Prop := users_unique (users d) = true.
 (* ------------------------------------------------------------------ *)
 (** * finding classes (decidable on the input) *)
 
-Inductive finding := K_quota_not_enforced | K_unknown_user_other_domain | K_role_rejected_as_unknown.
-
-Definition same_local_elsewhere (d : db) (n : str) : bool :=
-  existsb (fun u => str_eqb (u_name u) n) (users d).
-
-(** per RCPT address, under reject_unknown_user *)
-Definition classify_addr (cfg : config) (d : db) (addr : str) : option finding :=
-  if reject_unknown_user cfg then
-    match extract_parts addr with
-    | None => None
-    | Some (n, dom) =>
-        if is_role d addr && negb (same_local_elsewhere d n) then Some K_role_rejected_as_unknown
-        else if negb (is_role d addr) && negb (user_exists d n dom) && same_local_elsewhere d n
-             then Some K_unknown_user_other_domain
-             else None
-    end
-  else None.
-
-(** only addresses that reach the unknown-user test count *)
-Fixpoint classify_rcpts (cfg : config) (d : db) (n_accepted : Z) (addrs : list str) : option finding :=
-  match addrs with
-  | [] => None
-  | a :: rest =>
-      if (max_recipients cfg <=? n_accepted) then classify_rcpts cfg d n_accepted rest
-      else if (match allowed_domains cfg with [] => false | _ => negb (domain_listed cfg a) end)
-           then classify_rcpts cfg d n_accepted rest
-           else match classify_addr cfg d a with
-                | Some k => Some k
-                | None =>
-                    if (reject_unknown_user cfg && negb (known d a)) then classify_rcpts cfg d n_accepted rest
-                    else classify_rcpts cfg d (n_accepted + 1) rest
-                end
-  end.
+Inductive finding := K_quota_not_enforced.
 
 Definition is_quota_refusal (o : outcome) : bool :=
   match o with Refused WhyQuota => true | _ => false end.
 
 Definition classify (cfg : config) (d : db) (addrs : list str) (m : message) : option finding :=
-  match classify_rcpts cfg d 0 addrs with
-  | Some k => Some k
-  | None =>
-      if quota_enabled cfg && existsb is_quota_refusal (fst (spec_data cfg d (spec_accepted cfg d addrs) m))
-      then Some K_quota_not_enforced else None
-  end.
+  if quota_enabled cfg && existsb is_quota_refusal (fst (spec_data cfg d (spec_accepted cfg d addrs) m))
+  then Some K_quota_not_enforced else None.
